@@ -163,7 +163,8 @@ fn clause_id(c: &str) -> String {
 // (b) scale matrix
 // ------------------------------------------------------------------------------------------------
 
-pub const ACTIONS: [&str; 8] = ["drop", "clear", "into_iter-full", "into_iter-partial-front", "into_iter-partial-back", "lookups", "remove-all", "build-only-then-leak"];
+pub const ACTIONS: [&str; 9] = [
+    "remove-some","drop", "clear", "into_iter-full", "into_iter-partial-front", "into_iter-partial-back", "lookups", "remove-all", "build-only-then-leak"];
 
 /// child process entry
 pub fn child(order: &str, n: u32, action: &str, stack: &str) -> i32 {
@@ -210,6 +211,14 @@ pub fn child(order: &str, n: u32, action: &str, stack: &str) -> i32 {
                 }
                 std::hint::black_box(t.min());
                 std::hint::black_box(t.max());
+            }
+            "remove-some" => {
+                // single removals at both ends and in the middle of the key range (each re-joins two subtrees)
+                for k in [n - 2, 1, n / 2, n - 1, 0, n / 3] {
+                    let had = t.contains(&k);
+                    assert_eq!(t.remove(&k).is_some(), had);
+                    std::hint::black_box(t.min());
+                }
             }
             "remove-all" => {
                 for i in 0..n {
